@@ -200,11 +200,19 @@ func checkC11(c *Ctx, r *Report) {
 			for i, n := range o31 {
 				pos31[n] = i
 			}
+			// only steps that write the same keyed place are ordered against each other
+			sameTarget := map[string]string{
+				"<emitter>.generateEnumSpec": "components.schemas", "<emitter>.generateStructSpec": "components.schemas", "<emitter>.generateAliasSpec": "components.schemas",
+				"<emitter>.createErrorResponse": "responses", "<emitter>.createResponseSuccess": "responses",
+			}
 			last, lastName := -1, ""
 			for _, n := range o30 {
 				j, common := pos31[n]
-				if !common {
+				if !common || sameTarget[n] == "" {
 					continue
+				}
+				if lastName != "" && sameTarget[lastName] != sameTarget[n] {
+					last, lastName = -1, ""
 				}
 				if j < last {
 					if _, tabled := dt.Only30[key]["order:"+lastName+">"+n]; !tabled {
